@@ -501,7 +501,13 @@ impl Run {
 		}
 		if let Some(m) = v["counters"].as_object() {
 			for (k, x) in m {
-				*i.counters.entry(k.clone()).or_insert(0) += x.as_u64().unwrap_or(0);
+				let e = i.counters.entry(k.clone()).or_insert(0);
+				if k.starts_with("max_") {
+					// high-water marks are merged by maximum, everything else is summed
+					*e = (*e).max(x.as_u64().unwrap_or(0));
+				} else {
+					*e += x.as_u64().unwrap_or(0);
+				}
 			}
 		}
 		if let Some(a) = v["violations"].as_array() {
